@@ -220,21 +220,21 @@ pub fn gen_range(
     );
     constr.add(
         &format!("{range_slice} from"),
-        &Expected::from(from),
         int_exp,
+        &Expected::from(from),
         env,
     );
     constr.add(
         &format!("{range_slice} to"),
-        &Expected::from(to),
         int_exp,
+        &Expected::from(to),
         env,
     );
     if let Some(step) = step {
         constr.add(
             &format!("{range_slice} step"),
-            &Expected::from(step),
             int_exp,
+            &Expected::from(step),
             env,
         );
     }
